@@ -42,6 +42,7 @@ def shards(tier, seed):
         out.append({'kind': 'loops', 'lo': lo, 'hi': min(nprog, lo + LOOP_CHUNK)})
     for lo in range(0, len(XS.terms(tier)), 80):
         out.append({'kind': 'extra', 'lo': lo, 'hi': lo + 80})
+        out.append({'kind': 'derivs', 'lo': lo, 'hi': lo + 80})
     for s in irspace.shards(TERM_PROFILES[tier], NPARTS[tier]):
         s['kind'] = 'terms'
         out.append(s)
@@ -176,6 +177,10 @@ def run_shard(spec, tier, seed):
         for fam, prog in progs:
             _one(prog, ALL_CONFIGS, res, fam)
         res.sample({'loop_program': LS.show(progs[0][1]), 'family': progs[0][0], 'configs': len(ALL_CONFIGS)})
+    elif spec['kind'] == 'derivs':
+        for fam, term in XS.terms(tier)[spec['lo']:spec['hi']]:
+            _deriv(term, res)
+        res.sample({'derivative_programs_of': 'structured families', 'configs': [cfgname(c) for c in PRINCIPAL]})
     elif spec['kind'] == 'extra':
         ts = XS.terms(tier)[spec['lo']:spec['hi']]
         for fam, term in ts:
@@ -210,8 +215,64 @@ def _one(prog, cfgs, res, fam):
     res.violation(_key(prog, fail), '[{}] {} :: config {} {}: {}'.format(fam, LS.show(prog), fail[0], fail[1], fail[2]), {'program': LS.to_json(prog), 'config': fail[0]})
 
 
+def check_derivative(term):
+    '''the derivative of a term to each float argument is a program without a hand-written meaning: all principal configurations must
+    agree with the unsimplified, unoptimised evaluation (pure differential oracle). Returns None or (cfg, kind, what)'''
+    from nutils import evaluable
+    try:
+        node = T.build(term)
+    except Exception:
+        return None
+    args = T.arguments(term)
+    envs = T.valuations(args, nsets=1, exhaustive_int=False)[:1]
+    for name, (shape, kind) in sorted(args.items()):
+        if kind != 'f':
+            continue
+        var = evaluable.Argument(name, tuple(evaluable.constant(n) for n in shape), float)
+        try:
+            d = evaluable.derivative(node, var)
+        except Exception:
+            continue
+        if not irtools.simplifies(d):
+            continue
+        try:
+            base = [evaluable.compile(d, _simplify=False, _optimize=False, cache_const_intermediates=False)(env) for env in envs]
+        except Exception:
+            continue
+        if not all(numpy.isfinite(b).all() for b in base):
+            continue
+        for cfg in PRINCIPAL[1:] if not (PRINCIPAL[0]['simplify'] or PRINCIPAL[0]['optimize']) else PRINCIPAL:
+            if not cfg['simplify'] and not cfg['optimize']:
+                continue
+            try:
+                f = evaluable.compile(d, _simplify=cfg['simplify'], _optimize=cfg['optimize'], cache_const_intermediates=False)
+                vals = [f(env) for env in envs]
+            except Exception as e:
+                return (cfgname(cfg), 'eval-exception', 'd/d{} of the term: configuration raised {!r} while the plain evaluation works'.format(name, e)[:300])
+            for v, b in zip(vals, base):
+                if v.shape != b.shape or not irtools.close(v, b, 'f'):
+                    return (cfgname(cfg), 'value', 'd/d{} of the term: configuration gives {} but the plain evaluation {}'.format(name, irtools.describe(v), irtools.describe(b)))
+    return None
+
+
+def _deriv(term, res):
+    res.count('programs')
+    try:
+        fail = check_derivative(term)
+    except T.IllTyped:
+        return
+    res.count('evaluations')
+    res.distinct('distinct_nontrivial', 'deriv' + T.show(term))
+    if fail:
+        msg = fail[2].split('raised ')[-1].split(' while')[0][:60] if fail[1] == 'eval-exception' else ''
+        res.violation('derivative-program:{}:{}:{}'.format(fail[1], fail[0], msg), '{} :: {}'.format(T.show(term), fail[2]), {'derivative_of': T.to_json(term)})
+
+
 def replay(w):
     irtools.quiet()
+    if 'derivative_of' in w:
+        fail = check_derivative(T.from_json(w['derivative_of']))
+        return None if fail is None else 'config {} {}: {}'.format(*fail)
     prog = LS.from_json(w['program'])
     cfgs = [c for c in ALL_CONFIGS if cfgname(c) == w.get('config')] or ALL_CONFIGS
     fail = check_program(prog, cfgs)
